@@ -11,45 +11,45 @@ import (
 
 // Kafka error codes used by the model.
 const (
-	ErrNone                       int16 = 0
-	ErrUnknown                    int16 = -1
-	ErrOffsetOutOfRange           int16 = 1
-	ErrCorruptMessage             int16 = 2
-	ErrUnknownTopicOrPartition    int16 = 3
-	ErrLeaderNotAvailable         int16 = 5
-	ErrNotLeaderForPartition      int16 = 6
-	ErrRequestTimedOut            int16 = 7
-	ErrBrokerNotAvailable         int16 = 8
-	ErrMessageTooLarge            int16 = 10
-	ErrCoordinatorLoadInProgress  int16 = 14
-	ErrCoordinatorNotAvailable    int16 = 15
-	ErrNotCoordinator             int16 = 16
-	ErrInvalidTopic               int16 = 17
-	ErrNotEnoughReplicas          int16 = 19
-	ErrNotEnoughReplicasAfterApp  int16 = 20
-	ErrInvalidRequiredAcks        int16 = 21
-	ErrIllegalGeneration          int16 = 22
-	ErrInconsistentGroupProtocol  int16 = 23
-	ErrUnknownMemberID            int16 = 25
-	ErrInvalidSessionTimeout      int16 = 26
-	ErrRebalanceInProgress        int16 = 27
-	ErrTopicAuthorizationFailed   int16 = 29
-	ErrGroupAuthorizationFailed   int16 = 30
-	ErrUnsupportedSASLMechanism   int16 = 33
-	ErrIllegalSASLState           int16 = 34
-	ErrUnsupportedVersion         int16 = 35
-	ErrTopicAlreadyExists         int16 = 36
-	ErrInvalidPartitions          int16 = 37
-	ErrInvalidReplicationFactor   int16 = 38
-	ErrNotController              int16 = 41
-	ErrInvalidRequest             int16 = 42
-	ErrUnsupportedForMessageFmt   int16 = 43
-	ErrSASLAuthenticationFailed   int16 = 58
-	ErrKafkaStorageError          int16 = 56
-	ErrGroupIDNotFound            int16 = 69
-	ErrFencedLeaderEpoch          int16 = 74
-	ErrMemberIDRequired           int16 = 79
-	ErrFencedInstanceID           int16 = 82
+	ErrNone                      int16 = 0
+	ErrUnknown                   int16 = -1
+	ErrOffsetOutOfRange          int16 = 1
+	ErrCorruptMessage            int16 = 2
+	ErrUnknownTopicOrPartition   int16 = 3
+	ErrLeaderNotAvailable        int16 = 5
+	ErrNotLeaderForPartition     int16 = 6
+	ErrRequestTimedOut           int16 = 7
+	ErrBrokerNotAvailable        int16 = 8
+	ErrMessageTooLarge           int16 = 10
+	ErrCoordinatorLoadInProgress int16 = 14
+	ErrCoordinatorNotAvailable   int16 = 15
+	ErrNotCoordinator            int16 = 16
+	ErrInvalidTopic              int16 = 17
+	ErrNotEnoughReplicas         int16 = 19
+	ErrNotEnoughReplicasAfterApp int16 = 20
+	ErrInvalidRequiredAcks       int16 = 21
+	ErrIllegalGeneration         int16 = 22
+	ErrInconsistentGroupProtocol int16 = 23
+	ErrUnknownMemberID           int16 = 25
+	ErrInvalidSessionTimeout     int16 = 26
+	ErrRebalanceInProgress       int16 = 27
+	ErrTopicAuthorizationFailed  int16 = 29
+	ErrGroupAuthorizationFailed  int16 = 30
+	ErrUnsupportedSASLMechanism  int16 = 33
+	ErrIllegalSASLState          int16 = 34
+	ErrUnsupportedVersion        int16 = 35
+	ErrTopicAlreadyExists        int16 = 36
+	ErrInvalidPartitions         int16 = 37
+	ErrInvalidReplicationFactor  int16 = 38
+	ErrNotController             int16 = 41
+	ErrInvalidRequest            int16 = 42
+	ErrUnsupportedForMessageFmt  int16 = 43
+	ErrSASLAuthenticationFailed  int16 = 58
+	ErrKafkaStorageError         int16 = 56
+	ErrGroupIDNotFound           int16 = 69
+	ErrFencedLeaderEpoch         int16 = 74
+	ErrMemberIDRequired          int16 = 79
+	ErrFencedInstanceID          int16 = 82
 )
 
 // StoredBatch is one physical batch in a partition log.
@@ -81,20 +81,20 @@ func (b *StoredBatch) LastOffset() int64 {
 
 // Partition is one topic partition of the model.
 type Partition struct {
-	Topic    string
-	ID       int32
-	Leader   int32
-	Epoch    int32
-	Replicas []int32
-	ISR      []int32
-	Offline  []int32
-	LogStart int64
-	LEO      int64 // log end offset == high watermark in this model
-	Batches  []*StoredBatch
-	AllBatches []*StoredBatch // every batch ever appended (retention does not remove from here)
-	LeaderSince time.Duration // when the current leader took over
-	Err      int16 // partition-level metadata error
-	waiters  []func()
+	Topic       string
+	ID          int32
+	Leader      int32
+	Epoch       int32
+	Replicas    []int32
+	ISR         []int32
+	Offline     []int32
+	LogStart    int64
+	LEO         int64 // log end offset == high watermark in this model
+	Batches     []*StoredBatch
+	AllBatches  []*StoredBatch // every batch ever appended (retention does not remove from here)
+	LeaderSince time.Duration  // when the current leader took over
+	Err         int16          // partition-level metadata error
+	waiters     []func()
 }
 
 // Records returns every stored record, in log order.
@@ -131,27 +131,27 @@ func (b *Broker) Addr() string { return fmt.Sprintf("%s:%d", b.Host, b.Port) }
 
 // Req is one journal entry: a request that arrived at a broker.
 type Req struct {
-	Idx      int
-	Step     int
-	At       time.Duration
-	Broker   int32
-	Conn     *Conn
-	Frame    []byte
-	Hdr      rc.RequestHeader
-	API      *rc.API
-	Body     rc.Msg
-	DecodeErr error
-	Handled  bool   // the broker has processed (or deliberately dropped) the request
-	Fault    string // fault applied to this exchange ("" none)
-	Applied  bool   // the request's effect was applied to the cluster state
-	Resp     rc.Msg // response body (nil: none)
-	RespLen  int
-	RespAt   time.Duration // when the response was handed to the network (-1: never)
-	RespFull bool          // every response byte was delivered to the client's socket buffer
-	RespFullAt time.Duration
+	Idx          int
+	Step         int
+	At           time.Duration
+	Broker       int32
+	Conn         *Conn
+	Frame        []byte
+	Hdr          rc.RequestHeader
+	API          *rc.API
+	Body         rc.Msg
+	DecodeErr    error
+	Handled      bool   // the broker has processed (or deliberately dropped) the request
+	Fault        string // fault applied to this exchange ("" none)
+	Applied      bool   // the request's effect was applied to the cluster state
+	Resp         rc.Msg // response body (nil: none)
+	RespLen      int
+	RespAt       time.Duration // when the response was handed to the network (-1: never)
+	RespFull     bool          // every response byte was delivered to the client's socket buffer
+	RespFullAt   time.Duration
 	RespFullStep int
-	Produced []ProducedBatch
-	Note     string
+	Produced     []ProducedBatch
+	Note         string
 }
 
 // ProducedBatch records what a produce request did to one partition.
@@ -166,14 +166,14 @@ type ProducedBatch struct {
 
 // connState is the broker-side state of a connection.
 type connState struct {
-	broker  *Broker
-	queue   []*Req
-	busy    bool
-	authed  bool
-	saslMech string
-	saslConv any
-	saslRaw bool // after a v0 handshake: raw length-prefixed tokens
-	reqs    int
+	broker    *Broker
+	queue     []*Req
+	busy      bool
+	authed    bool
+	saslMech  string
+	saslConv  any
+	saslRaw   bool // after a v0 handshake: raw length-prefixed tokens
+	reqs      int
 	lastFrame map[[2]int16][]byte // last response frame per (api key, version)
 }
 
@@ -189,7 +189,7 @@ type FaultCfg struct {
 	// StaleResponse: before the real response a duplicate of the previous
 	// response of the same API on this connection is delivered (a replayed /
 	// left-over frame); a client must reject it by its correlation id
-	StaleResponse int
+	StaleResponse    int
 	SlowMin, SlowMax time.Duration
 	StallReset       time.Duration // a stalled connection is reset by the broker after this long (default 8s)
 	// which api keys are eligible (nil = all except ApiVersions/SASL)
@@ -197,27 +197,27 @@ type FaultCfg struct {
 	// stop injecting after this simulated time (0 = never stop)
 	Until time.Duration
 	// maximum number of injected faults per run (0 = unlimited)
-	Max int
+	Max   int
 	fired int
 }
 
 // Cluster is the event-driven model of a Kafka cluster.
 type Cluster struct {
-	S          *Sim
-	N          *Net
-	Brokers    []*Broker
-	Controller int32
-	Topics     map[string]*Topic
-	Groups     map[string]*Group
-	Journal    []*Req
-	F          FaultCfg
-	ClusterID  string
-	AutoCreate bool
+	S               *Sim
+	N               *Net
+	Brokers         []*Broker
+	Controller      int32
+	Topics          map[string]*Topic
+	Groups          map[string]*Group
+	Journal         []*Req
+	F               FaultCfg
+	ClusterID       string
+	AutoCreate      bool
 	AutoCreateParts int
 	// per-API hooks for scenario-specific behaviour: return true if handled
 	Hook func(b *Broker, r *Req) (handled bool)
 	// ProduceErr lets a scenario force an error code for a produce to a partition
-	ProduceErr func(r *Req, topic string, part int32) (code int16, apply bool)
+	ProduceErr     func(r *Req, topic string, part int32) (code int16, apply bool)
 	ExpectClientID string
 	// Mutate post-processes a response body before it is encoded (error injection)
 	Mutate func(r *Req, body rc.Msg) rc.Msg
@@ -232,15 +232,15 @@ type Cluster struct {
 	MutateFrame func(r *Req, frame []byte) []byte
 	// TruncateAtMaxBytes: a partition's record set is cut at partition_max_bytes
 	// in the middle of a batch (what brokers do; consumers drop the partial tail)
-	TruncateAtMaxBytes bool
-	ListOffsetsErr     func(topic string, part int32) int16
-	GroupInitialDelay  time.Duration
+	TruncateAtMaxBytes     bool
+	ListOffsetsErr         func(topic string, part int32) int16
+	GroupInitialDelay      time.Duration
 	MinSession, MaxSession time.Duration
-	CommitErr          func(g *Group, topic string, part int32) int16
-	OnStable           func(g *Group, gr *GenRecord)
-	OnOffsetFetch      func(g *Group, r *Req, topic string, part int32, off int64)
-	nextPID            int
-	SASL       *SASLConfig
+	CommitErr              func(g *Group, topic string, part int32) int16
+	OnStable               func(g *Group, gr *GenRecord)
+	OnOffsetFetch          func(g *Group, r *Req, topic string, part int32, off int64)
+	nextPID                int
+	SASL                   *SASLConfig
 	// monitors
 	wireViolations int
 }
